@@ -90,7 +90,7 @@ func psDKG(ids []uint16, t, L int, rng *mrand.Rand, orch string, polIdx int) (ma
 		m[i] = i
 	}
 	pols := []simnet.Policy{simnet.Uniform, simnet.PreferNewest, simnet.Burst(), simnet.ByReceiver, simnet.StarveSender(ids[0])}
-	c := cluster.New(cluster.Config{Map: m, Silent: orch == "silent", Threshold: t - 1,
+	c := cluster.New(cluster.Config{Map: m, Silent: orch == "silent", Threshold: t - 1, PermutePicks: polIdx%2 == 0,
 		KGF: func(node uint16) tss.KeyGenerator { return sch.newKG(node) },
 		SF:  func(node uint16) tss.Signer { return sch.newSigner(node) }})
 	go c.Net.RunRandom(rng, pols[polIdx%len(pols)])
